@@ -616,4 +616,82 @@ theorem get_all_render (kvs : List Pair) (h : WF kvs) (x : Bytes) :
   obtain ⟨ps, h1, h2, h3⟩ := query_render kvs h
   exact ⟨ps, h1, by rw [getAll_eq_filter ps h2 x, h3 x]⟩
 
+/-! ### `Display` and back -/
+
+theorem display_eq_render : ∀ (ps : List Pair), display ps = render ps
+  | [] => rfl
+  | [_] => rfl
+  | p :: p' :: ps => by
+    simp only [display, render, renderPair, List.append_assoc, List.cons_append]
+    rw [display_eq_render (p' :: ps)]
+
+/-- inserting the pairs of a sorted list one after the other rebuilds the list: each goes behind everything stored -/
+theorem insertAll_sorted : ∀ (rest acc : List Pair), Sorted (acc ++ rest) → insertAll acc rest = some (acc ++ rest) := by
+  intro rest
+  induction rest with
+  | nil => intro acc _; simp [insertAll]
+  | cons kv rest ih =>
+    intro acc hs
+    obtain ⟨n, v⟩ := kv
+    have hacc : Sorted acc := List.Pairwise.sublist (List.sublist_append_left acc _) hs
+    obtain ⟨pos, hpos, ok⟩ := insertPos_ok acc hacc n
+    -- everything stored is not greater than the new name: the place is the end
+    have hall : ∀ i, i < acc.length → cmpBytes (nameAt acc i) n ≠ .gt := by
+      intro i hi
+      have hp := List.pairwise_append.1 hs
+      have := hp.2.2 acc[i] (List.getElem_mem hi) (n, v) (by simp)
+      rw [nameAt_lt acc i hi]; exact this
+    have hend : pos = acc.length := by
+      rcases Nat.lt_or_ge pos acc.length with h | h
+      · exact absurd (ok.high pos (Nat.le_refl _) h) (hall pos h)
+      · have := ok.le; omega
+    subst hend
+    have hins : insert acc n v = some (acc ++ [(n, v)]) := by
+      unfold insert; rw [hpos]; simp
+    simp only [insertAll, hins]
+    have := ih (acc ++ [(n, v)]) (by simpa using hs)
+    simpa using this
+
+theorem pdecodeS_plain : ∀ (l : Bytes), (∀ b ∈ l, b ≠ Sanitize.PCT) → Sanitize.pdecodeS 0 l = l := by
+  intro l
+  induction l with
+  | nil => intro _; rfl
+  | cons c rest ih =>
+    intro h
+    have hc := h c (by simp)
+    simp only [Sanitize.pdecodeS, hc, if_false]
+    rw [ih (fun b hb => h b (by simp [hb]))]
+
+/-- without a `%` nothing is decoded -/
+theorem percentDecode_plain (l : Bytes) (h : ∀ b ∈ l, b ≠ Sanitize.PCT) : Sanitize.percentDecode l = l := by
+  unfold Sanitize.percentDecode Sanitize.pdecode
+  rw [pdecodeS_plain l h]
+  simp
+
+/-- **`Display` and `parse::query` are inverse to each other** on what `query` produces from unescaped input: for every
+pair list sorted by name whose names are not empty and whose names and values hold no `=`, `&`, `%`,
+`query(to_string(pairs)) = pairs` -/
+theorem query_display_roundtrip (ps : List Pair) (hs : Sorted ps) (hw : WF ps)
+    (hp : ∀ p ∈ ps, (∀ b ∈ p.1, b ≠ Sanitize.PCT) ∧ (∀ b ∈ p.2, b ≠ Sanitize.PCT)) :
+    query (display ps) = some ps := by
+  have hmap : ps.map dec = ps := by
+    have : ∀ p ∈ ps, dec p = p := by
+      intro p hpm
+      obtain ⟨h1, h2⟩ := hp p hpm
+      simp only [dec, percentDecode_plain p.1 h1, percentDecode_plain p.2 h2]
+    calc ps.map dec = ps.map id := List.map_congr_left this
+      _ = ps := by simp
+  rw [display_eq_render]
+  cases ps with
+  | nil => decide
+  | cons p rest =>
+    have := go_render (p :: rest) (by simp) hw [] 0 []
+    simp only [List.nil_append, List.length_nil] at this
+    rw [hmap, insertAll_sorted (p :: rest) [] (by simpa using hs)] at this
+    simp only [List.nil_append] at this
+    unfold query
+    cases hgo : go (render (p :: rest)) ⟨0, 0, []⟩ 0 (render (p :: rest)) with
+    | none => rw [hgo] at this; simp at this
+    | some st => rw [hgo] at this; simpa using this
+
 end QuerySplit
